@@ -120,7 +120,7 @@ theorem placementKey_set (h : Hasher) (b : Board) (pt : Point) (v : Square) (hpt
         boardCoords_nodup ((mem_boardCoords pt).mpr hpt)]
   · simp only [Board.get_set_eq b pt.row pt.col v hr hc]
   · intro q _ hq
-    simp only
+    show sqKey h ((b.set pt.row pt.col v).get q.row q.col) q = sqKey h (b.get q.row q.col) q
     rw [Board.get_set_ne]
     intro ⟨e1, e2⟩
     apply hq
